@@ -139,9 +139,6 @@ void judgeModel(Ctx &ctx, const std::string &prop, const SemModel &m, const Mode
     if (!rc.ok) {
         viol(prop, "c-run-failed:" + caseTag.substr(0, caseTag.find(' ')), rc.error, replay);
     }
-    if (!rp.ok) {
-        viol(prop, "python-run-failed:" + caseTag.substr(0, caseTag.find(' ')), rp.error, text + "\n# ---- generated Python ----\n" + pyImpl);
-    }
     stat("models_run");
     if (rc.ok && rc.nlaSolves > 0) {
         stat("nla_solves", rc.nlaSolves);
@@ -230,9 +227,21 @@ void judgeModel(Ctx &ctx, const std::string &prop, const SemModel &m, const Mode
             closePoint();
         }
     }
+    bool cMismatch = false; // the C profile's values already disagree with the reference
     for (int profile = 0; profile < 2; ++profile) {
         const CodeRun &run = profile == 0 ? rc : rp;
         const char *pn = profile == 0 ? "C" : "Python";
+        if (profile == 1 && !rp.ok) {
+            // Python raises (OverflowError, ZeroDivisionError, math domain error) where C yields inf/nan.  Where the
+            // reference decides every value no such exception can occur unless a value is already wrong, and then the C
+            // profile (same equations, same order) has reported that wrong value: the exception is its consequence.
+            bool arithmetic = rp.error.find("OverflowError") != std::string::npos || rp.error.find("ZeroDivisionError") != std::string::npos || rp.error.find("math domain error") != std::string::npos;
+            if (arithmetic && rc.ok && cMismatch) {
+                stat("python_exception_after_c_mismatch_not_reported");
+            } else {
+                viol(prop, "python-run-failed:" + caseTag.substr(0, caseTag.find(' ')), rp.error, text + "\n# ---- generated Python ----\n" + pyImpl);
+            }
+        }
         if (!run.ok) {
             continue;
         }
@@ -267,6 +276,7 @@ void judgeModel(Ctx &ctx, const std::string &prop, const SemModel &m, const Mode
                 ref.e = ref.e * std::fabs(f) + 2.0 * ulpOf(ref.v);
                 ++jd.compared;
                 if (!consistent(ref, got)) {
+                    cMismatch = cMismatch || profile == 0;
                     misses.push_back({what, qi, got, ref});
                     if (std::string(what) != "rate") {
                         wrongValue.insert(qi);
